@@ -293,7 +293,7 @@ func (o *Obligation) Query() string {
 		b.WriteByte('\n')
 	}
 	for _, tag := range sortedStrKeys(u.hintTags) {
-		if strings.Contains(o.Name, "["+tag+".") {
+		if strings.Contains(o.Name, "["+tag+".") || strings.Contains(o.Name, "["+tag+"/") {
 			fmt.Fprintf(&b, "(assert %s)\n", u.hintTags[tag])
 		} else {
 			fmt.Fprintf(&b, "(assert (not %s))\n", u.hintTags[tag])
